@@ -44,11 +44,16 @@ def pose(draw):
 def ss_strategy(draw, tier):
     r1, r2 = draw(LEN), draw(LEN)
     mode = draw(st.sampled_from(["partial", "partial", "partial", "ext-tangent", "int-tangent", "concentric",
-                                 "nested", "disjoint", "equal-radii", "any"]))
+                                 "nested", "disjoint", "equal-radii", "any", "near-coincident"]))
     f = draw(st.floats(min_value=0.001, max_value=0.999, allow_nan=False))
     if mode == "equal-radii":
         r2 = r1
         d = f * 2 * r1
+    elif mode == "near-coincident":
+        # almost the same sphere twice: radii that differ by a few ulps (or not at all) and a centre distance just
+        # above |r1 - r2|, down to the rounding level of the radii (the closed form divides by d)
+        r2 = r1 * (1.0 + draw(st.integers(-8, 8)) * 2.0 ** -draw(st.integers(30, 52)))
+        d = abs(r1 - r2) + r1 * 10.0 ** -draw(st.integers(6, 17)) * (1 + f)
     elif mode == "partial":
         lo, hi = abs(r1 - r2), r1 + r2
         d = lo + f * (hi - lo)
@@ -205,7 +210,7 @@ def run_sf(case, ctx):
 
 SUBCHECKS = [
     Sub("sphere_sphere", ss_strategy, run_ss, quick=8000, thorough=120000, shards_quick=4,
-        required={"ss:partial-overlap": 500, "ss:ext-tangent": 50, "ss:int-tangent": 50, "ss:concentric": 50,
+        required={"ss:partial-overlap": 500, "ss:near-coincident": 50, "ss:ext-tangent": 50, "ss:int-tangent": 50, "ss:concentric": 50,
                   "ss:nested": 50, "ss:disjoint": 50, "ss:equal-radii": 50}),
     Sub("cap_frustum", cap_strategy, run_cap, quick=3000, thorough=40000, shards_quick=2,
         required={"cap:h=0": 30, "cap:h=r": 30, "cap:h=2r": 30, "cap:general": 300, "frustum:cylinder": 50}),
